@@ -211,6 +211,15 @@ PX("C07", "C07_mailbox", "Every request terminates: the shutdown of an actor's m
  ("C07_mailbox_old_strands", "old_strands", "with the plain drop of the receiver (the code before the fix) one sender is enough: reserve, close, gone, push - the message is in a channel nobody reads and its sender is never answered (the hang harness nsstress found on the multi-thread runtime)"),
  ("C07_mailbox_new_same_schedule", "new_same_schedule", "on that schedule the orderly receiver cannot leave while the slot is outstanding; it takes the late message out and only then goes"),
 ])
+HDR_PPASS = "From Coq Require Import List Arith Bool NArith.\nImport ListNotations.\nFrom Deltio Require Import Model.PushPass Proofs.PushPassP.\n"
+PX("C14", "C14_pass_deletion", "Push subscriptions deliver at least once until the endpoint accepts: a pass under way stops when the subscription is deleted", HDR_PPASS, "PushPassP.v", [
+ ("C14_pass_no_post_after_delete", "whole_no_late_post", "one pass of the push loop at the granularity pull / dispatch one message / answer / finish / the deleted signal fires, every schedule of these events (events that are not enabled are skipped), any page: with the whole pass raced against the deletion signal (the code) no POST is made once the subscription is deleted"),
+ ("C14_pass_delete_stops", "whole_delete_stops", "and whatever comes after the deletion, the POSTs stay those made before it: the rest of the page is forgotten, nothing in flight is re-sent"),
+ ("C14_pass_posts_prefix", "pass_posts_prefix", "either way of listening to the signal: what a pass POSTs is a prefix of the page it pulled, in page order - nothing is invented or skipped, and a page of distinct ids is POSTed without repetition"),
+ ("C14_pass_pull_only_refuted", "pullonly_refuted", "with only the pull raced against the signal (seeded change C14-r7) a deletion after the second POST of a page of four does not stop the pass: messages 3 and 4 are POSTed for a subscription that no longer exists (on the implementation: 37 of 40 with the push-delete stream)"),
+ ("C14_pass_whole_same_schedule", "whole_same_schedule", "the same schedule with the whole pass raced: two POSTs, both before the deletion, and the pass is over"),
+ ("C14_pass_undisturbed", "undisturbed_pass", "without a deletion both variants hand the whole page over (the statements above are not vacuous)"),
+])
 PX("C16", "C16_actors", "Abandoned requests have all-or-nothing effect", HDR_ACTORS, "ConcActorsP.v", [
  ("C16_exists_implies_attached", "C16_attached", "actor model with drops of any client at any pending point: at every quiescent reachable state every subscription that exists, is not deleted and whose topic lives is attached to that topic"),
  ("C16_never_wedged", "C16_no_wedge", "after any continuation, drops included, the server can still make progress whenever something is outstanding"),
